@@ -81,6 +81,9 @@ class FilterSpy:
         spied = {k: v for k, v in kwargs.items() if k not in ("context", "environment")}
         if _has_special(left) or _has_special(args) or _has_special(spied):
             self._flag.append(1)
+        if isinstance(left, (list, tuple, dict)) and _has_special(str(left)):
+            # string filters stringify collections with Python's repr, which contains quotes
+            self._flag.append(1)
         res = self._func(left, *args, **kwargs)
         if _has_special(res):
             self._flag.append(1)
@@ -129,7 +132,7 @@ def evaluate(case) -> Verdict:
         v.labels.append("render-error")
         return v
     out = o[1]
-    used = _filters_used(case["main"])
+    used = _filters_used(case["main"]) | _filters_used(case.get("expr") or [])
     if kind == "hostile":
         bad = sorted({c for c in out if c in "<>\"'"})
         if bad:
@@ -173,6 +176,36 @@ def evaluate(case) -> Verdict:
     return v
 
 
+CHAIN_SHAPES = [
+    "{{ «E» }}", "{% echo «E» %}", "{% assign v = «E» %}{{ v }}", "{% capture c %}{{ «E» }}{% endcapture %}{{ c }}",
+    "{% assign v = «E» %}{% cycle v, h2 %}{% cycle v, h2 %}", "{% for i in lst %}{{ i }}{% endfor %}{{ «E» }}",
+    "{% assign v = «E» %}{% render 'p', x: v %}", "{% assign v = «E» %}{% include 'p', x: v %}",
+    "{% capture c %}{{ «E» }}{% endcapture %}{{ c | upcase }}{{ c | size }}", "{% liquid\necho «E»\n%}",
+    "{% assign v = «E» %}{% if v %}{{ v }}{% endif %}", "{% assign v = «E» %}{% with w: v %}{{ w }}{% endwith %}",
+    "{{ «E» | t }}", "{% assign v = «E» %}{{ lst | join: v }}",
+]
+
+
+@st.composite
+def chain_cases(draw):
+    """A hostile string fed directly into a chain of 1-4 filters, observed through several output sites."""
+    r = draw(st.randoms(use_true_random=False))
+    prof = _profile(False)
+    prof.names = ["h1", "h2", "h3"]
+    prof.max_path_segments = 0
+    prof.ranges = False
+    prof.float_literals = False
+    g = gg.Gen(r, prof)
+    e = {"k": "filt", "left": {"k": "path", "segs": [{"s": r.choice(prof.names)}]}, "filters": [g.filter_() for _ in range(r.randint(1, 4))]}
+    hostile = r.random() < 0.8
+    pool = HOSTILE if hostile else PLAIN
+    data = {"h1": r.choice(pool), "h2": r.choice(pool), "h3": r.choice(pool), "lst": [r.choice(pool) for _ in range(r.randint(0, 3))]}
+    if not hostile:
+        data = _strip_specials(data)
+    main = [{"k": "src", "v": r.choice(CHAIN_SHAPES).replace("«E»", gg.expr_src(e))}]
+    return {"kind": "hostile" if hostile else "plain", "main": main, "data": data, "ternary": False, "expr": e}
+
+
 @st.composite
 def cases(draw):
     r = draw(st.randoms(use_true_random=False))
@@ -214,8 +247,9 @@ def campaign(ctx: core.Ctx, tier: str, shard: int, nshards: int) -> None:
             idx += 1
             if idx % nshards == shard:
                 ctx.run({"kind": "safe", "i": i, "v": val})
-    total = 5000 if tier == "quick" else 150000
+    total = 4000 if tier == "quick" else 120000
     core.drive(cases(), ctx.run, n=max(1, total // nshards), seed=core.sub_seed(ctx.seed, shard))
+    core.drive(chain_cases(), ctx.run, n=max(1, (6000 if tier == "quick" else 150000) // nshards), seed=core.sub_seed(ctx.seed, shard, 7))
 
 
 def finish_kwargs(ctx: core.Ctx, tier: str) -> dict:
